@@ -575,6 +575,8 @@ class Printer:
         if isinstance(t, Var):
             return t.name
         if isinstance(t, Bin) and t.op == "index":
+            if isinstance(t.a, Bin) and t.a.op == "index":   # nested indexing is written with a comma
+                return "%s, an der Stelle %s" % (self.target(t.a), self.ex(t.b, True))
             return "%s an der Stelle %s" % (self.target(t.a), self.ex(t.b, True))
         if isinstance(t, Field):
             inner = self.target(t.e)
@@ -690,7 +692,8 @@ class Printer:
         return out
 
     def program(self, prelude=True):
-        out = ['Binde "Duden/Ausgabe" ein.'] if prelude else []
+        """prelude: True = import Duden/Ausgabe; "self" = self-contained print functions (no imports); False = nothing"""
+        out = ['Binde "Duden/Ausgabe" ein.'] if prelude is True else ([self_prelude()] if prelude == "self" else [])
         for it in self.prog.items:
             if isinstance(it, StructDecl):
                 out += self.structdecl(it)
@@ -700,6 +703,23 @@ class Printer:
                 out += self.stmt(it, 0)
         return "\n".join(out) + "\n"
 
+
+
+def self_prelude():
+    """replacement for `Binde "Duden/Ausgabe" ein.`: the same print functions declared in the main module itself
+    (extern ones from libddpstdlib.a), so that a program has no imports and can be compiled with --module-linken=false"""
+    out = []
+    names = {Z: ("Zahl", "Zahl"), K: ("Kommazahl", "Kommazahl"), B: ("Byte", "Byte"), W: ("Wahrheitswert", "Wahrheitswert"), C: ("Buchstabe", "Buchstabe"), T: ("Text", "Text")}
+    for t, (fn, tn) in names.items():
+        out.append('Die Funktion Schreibe_%s mit dem Parameter p1 vom Typ %s, gibt nichts zurück,\nist in "libddpstdlib.a" definiert\nund kann so benutzt werden:\n\t"Schreibe <p1>"' % (fn, tn))
+    for t, (fn, tn) in names.items():
+        out.append('Die Funktion Schreibe_Zeile_%s mit dem Parameter p1 vom Typ %s, gibt nichts zurück, macht:\n\tSchreibe p1.\n\tSchreibe \'\\n\'.\nUnd kann so benutzt werden:\n\t"Schreibe <p1> auf eine Zeile"' % (fn, tn))
+    for t, (fn, tn) in names.items():
+        ln = type_name(L(t))
+        lf = ln.replace(" ", "_")
+        out.append('Die Funktion Schreibe_%s mit dem Parameter p1 vom Typ %s, gibt nichts zurück, macht:\n\tFür jede Zahl i von 1 bis (die Länge von p1), mache:\n\t\tWenn i größer als 1 ist, Schreibe ", ".\n\t\tSchreibe (p1 an der Stelle i).\nUnd kann so benutzt werden:\n\t"Schreibe <p1>"' % (lf, ln))
+        out.append('Die Funktion Schreibe_%s_Zeile mit dem Parameter p1 vom Typ %s, gibt nichts zurück, macht:\n\tSchreibe p1.\n\tSchreibe \'\\n\'.\nUnd kann so benutzt werden:\n\t"Schreibe <p1> auf eine Zeile"' % (lf, ln))
+    return "\n".join(out) + "\n"
 
 # ---------------------------------------------------------------- evaluator
 
@@ -934,9 +954,7 @@ class Evaluator:
             r = a + b if op == "plus" else a - b if op == "minus" else a * b
             if ta == B and tb == B:
                 return r & 0xFF
-            if ta == Z and tb == Z:
-                return wrap64(r)
-            raise ModelDomain("mixed Zahl/Byte arithmetic is outside the model")
+            return wrap64(r)   # Zahl with Zahl or with a (zero-extended) Byte
         if op == "durch":
             x, y = float(a), float(b)
             if y == 0.0:
@@ -959,13 +977,11 @@ class Evaluator:
         if op == "log":
             raise ModelDomain("log only in differential checks")
         if op in ("lund", "loder", "lkontra"):
-            if ta != tb:
-                raise ModelDomain("mixed width bit operation")
             r = a & b if op == "lund" else a | b if op == "loder" else a ^ b
-            return wrap64(r) if ta == Z else r & 0xFF
+            return r & 0xFF if (ta == B and tb == B) else wrap64(r)
         if op in ("links", "rechts"):
             width = 64 if ta == Z else 8
-            if tb != ta or not (0 <= b < width):
+            if not (0 <= b < width):
                 raise ModelDomain("shift domain")
             if ta == Z:
                 u = a & ((1 << 64) - 1)
@@ -1248,9 +1264,7 @@ class Evaluator:
                 return K
             if ta == B and tb == B:
                 return B
-            if ta == Z and tb == Z:
-                return Z
-            raise ModelDomain("mixed Zahl/Byte")
+            return Z
         if op == "durch":
             return K
         if op in ("links", "rechts"):
